@@ -163,6 +163,25 @@ def run (fl : Flags) (term : Term) : List Layer → WKind → Req → World → 
 def runAll (fl : Flags) (term : Term) (stack : List Layer) (reqs : List Req) (s : World := {}) : World :=
   reqs.foldl (fun s q => run fl term stack .raw q s) s
 
+/-! ### a recorder whose provider is initialised late (OTLP): the instruments exist only after `Recorder.Start` -/
+
+structure Deferred where
+  started : Bool := false
+  tele : Tele := {}
+  deriving DecidableEq, Repr
+
+/-- one request through the app recorder; `startHere`: its handler calls `Recorder.Start` while the request is in
+    flight. BeginRequest: `if r.meter == nil { …; return nil }`; Finish: `if m == nil { return }`. -/
+def serveDeferred (startHere : Bool) (q : Req) (d : Deferred) : Deferred :=
+  let m := d.started                                   -- BeginRequest returned a RequestMetrics
+  let t1 := if m then d.tele.begin else d.tele
+  let t2 := if m then t1.finish fixed false (routeAttr q.label) q.status q.size else t1
+  ⟨d.started || startHere, t2⟩
+
+def runDeferred (startAt : Nat) : Nat → List Req → Deferred → Deferred
+  | _, [], d => d
+  | i, q :: rest, d => runDeferred startAt (i + 1) rest (serveDeferred (i == startAt) q d)
+
 /-- idle: every started span ended and every series of the gauge is back at zero -/
 def Tele.quiescent (t : Tele) : Bool := t.started == t.ended && t.gauge0 == 0 && t.gaugeA == 0
 
